@@ -6,7 +6,7 @@
                    /\ every filed router's source network is a key of self.routers.
    "At most one next hop per (snet, dnet)" is the functionality of the lookup together with
    C19_one_next_hop. *)
-From Bac Require Import Base RouterCache RouterCacheFacts RouterCacheRenum RouterCacheSweep.
+From Bac Require Import Base RouterCache RouterCacheFacts RouterCacheRenum RouterCacheSweep RouterNode RouterNodeFacts.
 Open Scope Z_scope.
 
 Theorem C19_init : Coherent empty.
@@ -166,6 +166,60 @@ Theorem C19_history_observed_is_learned : forall h up sn a ds,
 Proof. exact on_iam_after_history. Qed.
 Print Assumptions C19_history_observed_is_learned.
 
+(* ---- the traffic a node EMITS follows its current knowledge (model RouterNode: the node's cache, its
+   attached networks in look-up order, the application requests parked while no router is known) *)
+
+(* an I-Am-Router-To-Network heard on net sn from router a listing ds: recorded (newest wins for every
+   listed network, attached or remote, everything else unchanged); NO listed destination keeps parked
+   requests, wherever it stands in the list and whether or not the other listed networks had any;
+   every parked request for a listed destination is handed to a on sn; nothing else is released *)
+Theorem C19_announcement_releases_pending : forall n sn a ds, Inv (ncache n) ->
+  exists n', fst (node_iam n sn a ds) = Ok n' /\ Inv (ncache n') /\ nadapters n' = nadapters n /\
+    (forall sn0 d0, get_router_info (ncache n') sn0 d0 =
+       if (sn0 =? sn) && zmem d0 ds then Some a else get_router_info (ncache n) sn0 d0) /\
+    (forall d, In d ds -> aget Z.eqb d (npending n') = None) /\
+    (forall d tags t, In d ds -> aget Z.eqb d (npending n) = Some tags -> In t tags ->
+       In (Send sn a d t None) (snd (node_iam n sn a ds))) /\
+    (forall e, In e (snd (node_iam n sn a ds)) -> exists d t, e = Send sn a d t None /\ In d ds).
+Proof. exact node_iam_ok. Qed.
+Print Assumptions C19_announcement_releases_pending.
+
+(* a request to a destination with nothing parked goes to the first attached network's router the cache
+   names - and only there *)
+Theorem C19_request_follows_knowledge : forall n d t sn x,
+  aget Z.eqb d (npending n) = None -> route n d = Some (sn, x) ->
+  node_req n d t = (n, [Send sn x d t None]) /\ In sn (nadapters n) /\ get_router_info (ncache n) sn d = Some x.
+Proof.
+  intros n d t sn x Hp Hr. split; [apply node_req_known; assumption|]. apply route_in_sound in Hr. exact Hr.
+Qed.
+Print Assumptions C19_request_follows_knowledge.
+
+(* after an announcement heard on an attached network every later request for a listed destination
+   leaves at once, towards a router the cache now names for it *)
+Theorem C19_request_after_announcement : forall n sn a ds n' d t, Inv (ncache n) -> In sn (nadapters n) ->
+  fst (node_iam n sn a ds) = Ok n' -> In d ds ->
+  exists sn0 x, node_req n' d t = (n', [Send sn0 x d t None]) /\ In sn0 (nadapters n') /\
+                get_router_info (ncache n') sn0 d = Some x.
+Proof. exact req_after_iam. Qed.
+Print Assumptions C19_request_after_announcement.
+
+(* routed through-traffic to a remote network is handed to the router the look-up over ALL attached
+   networks gives - the adapter it arrived on plays no part *)
+Theorem C19_forward_follows_knowledge : forall n arr a snet d n' out sn x,
+  node_fwd n arr a snet d = (Ok n', out) ->
+  zmem snet (nadapters n) = false -> zmem d (nadapters n) = false -> (d =? arr) = false ->
+  route n' d = Some (sn, x) -> out = [Send sn x d 0 (Some snet)].
+Proof. exact node_fwd_known. Qed.
+Print Assumptions C19_forward_follows_knowledge.
+
+Theorem C19_forward_uses_router_on_arrival_network : forall n arr a snet d x, Inv (ncache n) -> In arr (nadapters n) ->
+  zmem snet (nadapters n) = false -> zmem d (nadapters n) = false -> snet <> d ->
+  get_router_info (ncache n) arr d = Some x ->
+  (forall sn, In sn (nadapters n) -> sn <> arr -> get_router_info (ncache n) sn d = None) ->
+  exists n', node_fwd n arr a snet d = (Ok n', [Send arr x d 0 (Some snet)]).
+Proof. exact node_fwd_arrival_net. Qed.
+Print Assumptions C19_forward_uses_router_on_arrival_network.
+
 (* non-vacuity: a coherent non-empty cache, and the repaired-defect histories evaluated *)
 Example C19_example_history :
   let s := run empty [Learn 1 1 [10; 11] 0; Learn 1 2 [11; 12] 0; Learn 2 3 [10] 0] in
@@ -197,6 +251,18 @@ Example C19_example_outage :
   let r := on_iam [false] (run empty [Learn 1 1 [10] 0]) 1 2 [10; 11] in
   (match fst r with Ok s' => (get_router_info s' 1 10, get_router_info s' 1 11) | Err _ => (None, None) end, snd r)
   = ((Some 2, Some 2), true).
+Proof. vm_compute. reflexivity. Qed.
+(* emitted traffic: a request parked while nothing is known, then an announcement listing [10; 11] with only
+   11 waiting releases it to the announcer; a later request goes straight out; through-traffic arriving on
+   net 1 for a destination known via a router on net 1 goes to that router *)
+Example C19_example_traffic :
+  let n0 := mkN empty [1; 2] [] in
+  let (n1, o1) := node_step n0 (NReq 11 1) in
+  let (n2, o2) := node_step n1 (NIAm 1 1 [10; 11]) in
+  let (n3, o3) := node_step n2 (NReq 11 2) in
+  let (n4, o4) := node_step n3 (NFwd 1 2 12 10) in
+  (o1, o2, o3, o4, npending n4)
+  = ([WhoIs 1 11; WhoIs 2 11], [Send 1 1 11 1 None], [Send 1 1 11 2 None], [Send 1 1 10 0 (Some 12)], []).
 Proof. vm_compute. reflexivity. Qed.
 (* the three repaired defects, on the model of the repaired code *)
 Example C19_example_forget_dnets_no_nameerror :
